@@ -87,7 +87,11 @@ func c6Check(c *Ctx, lv map[string]int64) {
 		c.Check(ok && IsNilConst(Strip(RetVals(r)[0])), "R6.1", name, "early-return#"+itoa(k+1), r.Pos(), "a return that skips Core.Check is only reachable under lvl < DPanicLevel(%s) (counter-example path: %v)", lim, cex)
 	}
 	// After calls
-	type arm struct{ level string; dev bool; def int64 }
+	type arm struct {
+		level string
+		dev   bool
+		def   int64
+	}
 	wtp, _ := c.ConstVal(CorePath, "WriteThenPanic")
 	wtf, _ := c.ConstVal(CorePath, "WriteThenFatal")
 	want := map[int64]arm{lv["Panic"]: {"Panic", false, wtp}, lv["Fatal"]: {"Fatal", false, wtf}, lv["DPanic"]: {"DPanic", true, wtp}}
